@@ -167,6 +167,11 @@ def apply_query(string, query=None, type=None, fields=None):
     if not query:
         return string, type, fields
 
+    if string and not fields:
+        # a string that no template accepts: there is nothing to apply the query to
+        # (a Sid is built from the query alone only when the string is empty)
+        return "{}?{}".format(string, query), type, fields
+
     _type = type
 
     new_data = update(fields, query)
